@@ -18,7 +18,7 @@ pub enum Plan {
     /// `kind`: 0 ErrorKind::Other, 1 Interrupted, 2 WouldBlock, 3 TimedOut; `burst` n >= 1: operations k..k+n fail
     /// (an operation that is tried again at once fails n times in a row); `prefill`: the destinations already hold
     /// longer stale content
-    Fault { dev: u8, k: u64, persistent: bool, chunk: u64, kind: u8, burst: u8, prefill: bool },
+    Fault { dev: u8, k: u64, persistent: bool, chunk: u64, kind: u8, burst: u8, prefill: bool, seek_moves: bool },
     /// two one-shot faults anywhere in the history as given (no call is inserted): operation k1 of dev1 and
     /// operation k2 of dev2, both counted on the run itself
     Pair { dev1: u8, k1: u64, dev2: u8, k2: u64 },
@@ -40,7 +40,7 @@ pub struct Case {
 impl Case {
     pub fn to_json(&self) -> Value {
         let plan = match &self.plan {
-            Plan::Fault { dev, k, persistent, chunk, kind, burst, prefill } => json!({"fault_on": (["shp", "shx"][*dev as usize]), "operation": k, "persistent": persistent, "chunk": chunk, "kind": KINDS[*kind as usize].0, "burst": burst, "prefill": prefill}),
+            Plan::Fault { dev, k, persistent, chunk, kind, burst, prefill, seek_moves } => json!({"fault_on": (["shp", "shx"][*dev as usize]), "operation": k, "persistent": persistent, "chunk": chunk, "kind": kind_name(*kind), "burst": burst, "prefill": prefill, "seek_moves": seek_moves}),
             Plan::Pair { dev1, k1, dev2, k2 } => json!({"pair": [(["shp", "shx"][*dev1 as usize]), k1, (["shp", "shx"][*dev2 as usize]), k2]}),
             Plan::Fault2 { dev1, k1, dev2, k2 } => json!({"fault2": [(["shp", "shx"][*dev1 as usize]), k1, (["shp", "shx"][*dev2 as usize]), k2]}),
             Plan::Chunk { kind, arg } => json!({"chunking": (["uniform", "one-op-1-byte", "one-op-all-but-last"][*kind as usize]), "arg": arg}),
@@ -56,7 +56,8 @@ impl Case {
                 k: p.get("operation")?.as_u64()?,
                 persistent: p.get("persistent")?.as_bool()?,
                 chunk: p.get("chunk").and_then(|x| x.as_u64()).unwrap_or(0),
-                kind: KINDS.iter().position(|(n, _)| *n == kn)? as u8,
+                kind: (0..n_kinds()).find(|i| kind_name(*i) == kn)?,
+                seek_moves: p.get("seek_moves").and_then(|x| x.as_bool()).unwrap_or(false),
                 burst: p.get("burst").and_then(|x| x.as_u64()).unwrap_or(1) as u8,
                 prefill: p.get("prefill").and_then(|x| x.as_bool()).unwrap_or(false),
             }
@@ -86,6 +87,28 @@ pub const KINDS: [(&str, std::io::ErrorKind); 5] = [
     // a write accepts 0 bytes (Ok(0)); on other operations an ordinary error
     ("ZeroWrite", std::io::ErrorKind::WriteZero),
 ];
+
+/// kinds 0..5 are the named ones above; the others are the remaining variants of dev::ALL_KINDS
+fn extra_kinds() -> Vec<std::io::ErrorKind> {
+    crate::dev::ALL_KINDS.iter().copied().filter(|k| !KINDS.iter().any(|(_, x)| x == k)).collect()
+}
+pub fn n_kinds() -> u8 {
+    (KINDS.len() + extra_kinds().len()) as u8
+}
+pub fn kind_of(i: u8) -> std::io::ErrorKind {
+    if (i as usize) < KINDS.len() {
+        KINDS[i as usize].1
+    } else {
+        extra_kinds()[i as usize - KINDS.len()]
+    }
+}
+pub fn kind_name(i: u8) -> String {
+    if (i as usize) < KINDS.len() {
+        KINDS[i as usize].0.to_string()
+    } else {
+        format!("{:?}", kind_of(i))
+    }
+}
 
 fn mk_env(with_shx: bool, prefill: bool) -> WEnv {
     let env = WEnv::new(with_shx);
@@ -191,11 +214,12 @@ pub fn observe(pal: &Palette, case: &Case, base: &Baseline) -> Obs {
     let mut failing_call = None;
     let dev_of = |e: &WEnv, d: u8| if d == 0 { e.shp.clone() } else { e.shx.clone().expect("fault on a missing .shx") };
     match &case.plan {
-        Plan::Fault { dev, k, persistent, chunk, kind, burst, .. } => {
+        Plan::Fault { dev, k, persistent, chunk, kind, burst, seek_moves, .. } => {
             chunk_env(&env, *chunk);
             let d = dev_of(&env, *dev);
-            d.set_fault_kind(KINDS[*kind as usize].1);
+            d.set_fault_kind(kind_of(*kind));
             d.set_zero_write_on_fault(*kind == 4);
+            d.set_seek_moves_on_fault(*seek_moves);
             if *persistent {
                 d.fail_at(*k, FaultMode::Persistent);
             } else {
@@ -233,12 +257,13 @@ pub fn observe(pal: &Palette, case: &Case, base: &Baseline) -> Obs {
     let mut retry = None;
     let c_is_f = |c: usize| c < case.ops.len() && case.ops[c] == WOp::F;
     match (&case.plan, failing_call) {
-        (Plan::Fault { dev, k, persistent: false, chunk, kind, burst, prefill }, Some(c)) if c_is_f(c) && *burst <= 1 => {
+        (Plan::Fault { dev, k, persistent: false, chunk, kind, burst, prefill, seek_moves }, Some(c)) if c_is_f(c) && *burst <= 1 => {
             // same history, the failed finalize called again right away
             let env2 = mk_env(case.with_shx, *prefill);
             chunk_env(&env2, *chunk);
-            dev_of(&env2, *dev).set_fault_kind(KINDS[*kind as usize].1);
+            dev_of(&env2, *dev).set_fault_kind(kind_of(*kind));
             dev_of(&env2, *dev).set_zero_write_on_fault(*kind == 4);
+            dev_of(&env2, *dev).set_seek_moves_on_fault(*seek_moves);
             dev_of(&env2, *dev).fail_burst(*k, (*burst).max(1) as u64);
             let mut ops2 = case.ops[..=c].to_vec();
             ops2.push(WOp::F);
@@ -359,7 +384,7 @@ pub fn judge(case: &Case, base: &Baseline, o: &Obs) -> Vec<(String, String)> {
                     }
                     other => out.push((
                         format!("failure-not-reported:{}:{}", opn, dn),
-                        format!("operation {} on .{} failed ({}) during call {} ({}), which returned {:?}", k, dn, KINDS[kind as usize].0, c, opn, other),
+                        format!("operation {} on .{} failed ({}) during call {} ({}), which returned {:?}", k, dn, kind_name(kind), c, opn, other),
                     )),
                 }
                 // the failed finalize is not retried at once: the history goes on, and a later
@@ -464,7 +489,7 @@ const UNIFORM: [u64; 11] = [1, 2, 3, 4, 5, 7, 8, 9, 15, 16, 17];
 /// (kind, burst) beyond the plain one-shot ErrorKind::Other
 const KIND_BURSTS: [(u8, u8); 8] = [(1, 1), (1, 2), (1, 3), (1, 4), (2, 1), (2, 2), (3, 1), (4, 1)];
 
-fn run_workload(ty: Ty, with_shx: bool, ops: &[WOp], chunks: &[u64], extra_maxlen: usize, ctx: &mut Ctx, tick: &dyn Fn()) {
+fn run_workload(ty: Ty, with_shx: bool, ops: &[WOp], chunks: &[u64], extra_maxlen: usize, all_kinds: bool, ctx: &mut Ctx, tick: &dyn Fn()) {
     let pal = Palette::new(ty, None);
     let base = baseline(&pal, with_shx, ops);
     if base.results.iter().any(|r| *r != CallRes::Ok) {
@@ -478,14 +503,24 @@ fn run_workload(ty: Ty, with_shx: bool, ops: &[WOp], chunks: &[u64], extra_maxle
         }
         for k in 0..log.len() as u64 {
             for persistent in [false, true] {
-                plans.push(Plan::Fault { dev, k, persistent, chunk: 0, kind: 0, burst: 1, prefill: false });
+                plans.push(Plan::Fault { dev, k, persistent, chunk: 0, kind: 0, burst: 1, prefill: false, seek_moves: false });
             }
             if ops.len() <= extra_maxlen {
                 // other error kinds, the same operation failing several times in a row, destinations holding stale content
                 for (kind, burst) in KIND_BURSTS {
-                    plans.push(Plan::Fault { dev, k, persistent: false, chunk: 0, kind, burst, prefill: false });
+                    plans.push(Plan::Fault { dev, k, persistent: false, chunk: 0, kind, burst, prefill: false, seek_moves: false });
                 }
-                plans.push(Plan::Fault { dev, k, persistent: false, chunk: 0, kind: 0, burst: 1, prefill: true });
+                plans.push(Plan::Fault { dev, k, persistent: false, chunk: 0, kind: 0, burst: 1, prefill: true, seek_moves: false });
+                // a seek that has moved the position when it reports its failure
+                if matches!(log.get(k as usize), Some(Op::Seek { .. })) {
+                    plans.push(Plan::Fault { dev, k, persistent: false, chunk: 0, kind: 0, burst: 1, prefill: false, seek_moves: true });
+                }
+                // every other error kind once
+                if ops.len() <= 2 && all_kinds {
+                    for kind in KINDS.len() as u8..n_kinds() {
+                        plans.push(Plan::Fault { dev, k, persistent: false, chunk: 0, kind, burst: 1, prefill: false, seek_moves: false });
+                    }
+                }
             }
         }
     }
@@ -539,7 +574,7 @@ fn run_workload(ty: Ty, with_shx: bool, ops: &[WOp], chunks: &[u64], extra_maxle
                 continue;
             }
             for k in 0..log.len() as u64 {
-                plans.push(Plan::Fault { dev, k, persistent: false, chunk: *c, kind: 0, burst: 1, prefill: false });
+                plans.push(Plan::Fault { dev, k, persistent: false, chunk: *c, kind: 0, burst: 1, prefill: false, seek_moves: false });
             }
         }
     }
@@ -603,7 +638,7 @@ fn selftest() -> (u64, u64) {
     let base = baseline(&pal, true, &ops);
     // the finalize's first .shp operation
     let k = base.shp_log.iter().position(|o| o.call() == 1).unwrap() as u64;
-    let case = Case { ty, with_shx: true, ops: ops.clone(), plan: Plan::Fault { dev: 0, k, persistent: false, chunk: 0, kind: 0, burst: 1, prefill: false } };
+    let case = Case { ty, with_shx: true, ops: ops.clone(), plan: Plan::Fault { dev: 0, k, persistent: false, chunk: 0, kind: 0, burst: 1, prefill: false, seek_moves: false } };
     if !judge(&case, &base, &observe(&pal, &case, &base)).is_empty() {
         return (1, 0);
     }
@@ -914,7 +949,9 @@ pub fn check(tier: Tier) -> i32 {
     let deadline = Some(started + std::time::Duration::from_secs(tier.pick(50, 1700)));
     let (agg, capped) = par_blocks(units.len(), deadline, |b, ctx, tick| {
         let (ty, with_shx, ops) = &units[b];
-        run_workload(*ty, *with_shx, ops, &chunks, extra_maxlen, ctx, tick);
+        // (quick: the sweep over all error kinds on one type per record layout class)
+        let all_kinds = tier == Tier::Thorough || matches!(ty, Ty::Point | Ty::PolylineZ | Ty::Multipatch);
+        run_workload(*ty, *with_shx, ops, &chunks, extra_maxlen, all_kinds, ctx, tick);
     });
     // large shapes under short writes of every magnitude (block-wise emission must not lose bytes)
     let mut big = Ctx::new();
@@ -977,7 +1014,7 @@ pub fn check(tier: Tier) -> i32 {
             tier,
             level: "fault_enumeration",
             engine: "writer histories on the real ShapeWriter over fault-injecting / short-writing devices; one execution per (workload, fault point or chunking schedule)",
-            rule: "workloads = every history over {Wa, Wb, F} up to the length bound x {with, without .shx} x types, ending in drop; fault points = every operation index k (write, seek or flush, counted on the fault-free log of this tree) on each device x {one-shot, persistent}; a one-shot fault inside a finalize is followed by the same history with that finalize retried; a second one-shot fault at every operation of that retry (same or other device) followed by a third call; every fault point again under uniform short writes (chunk 1 and 7; thorough 1, 3, 7, 16); a one-shot fault inside a finalize that is NOT retried at once: the history goes on and the files after drop equal the undisturbed run; for histories up to the extra bound: every fault point again with ErrorKind Interrupted (the operation failing 1..4 times in a row), WouldBlock (1..2 times), TimedOut, and with writes that accept 0 bytes (an interrupted operation may be tried again, then the run must be indistinguishable from the undisturbed one incl. flushed state; every other kind must be reported), every fault point again on destinations that already hold longer stale content, and every unordered pair of one-shot faults anywhere in the history (files, up to their declared length, equal the undisturbed run of the history without the failed writes); a .shp beyond 2 GiB (two user-defined records of 1 GiB on a discarding destination, a finalize, two small records) with each of the last 80 and first 8 operations of the .shp failing once; one history of 131073 writes (thorough also 300001, and PolylineM) with every seek and flush and the first and last 40 operations of each device failing once; chunking = uniform c in {1,2,3,4,5,7,8,9,15,16,17} (and 7..2^20 on shapes of 8193..70001 points) and, for every write call j, 'call j moves 1 byte' and 'call j moves len-1 bytes'; every case is non-trivial",
+            rule: "workloads = every history over {Wa, Wb, F} up to the length bound x {with, without .shx} x types, ending in drop; fault points = every operation index k (write, seek or flush, counted on the fault-free log of this tree) on each device x {one-shot, persistent}; a one-shot fault inside a finalize is followed by the same history with that finalize retried; a second one-shot fault at every operation of that retry (same or other device) followed by a third call; every fault point again under uniform short writes (chunk 1 and 7; thorough 1, 3, 7, 16); a one-shot fault inside a finalize that is NOT retried at once: the history goes on and the files after drop equal the undisturbed run; for histories up to the extra bound: every fault point again with ErrorKind Interrupted (the operation failing 1..4 times in a row), WouldBlock (1..2 times), TimedOut, with writes that accept 0 bytes, with seeks that have moved the position when they report their failure, and (histories <= 2; quick: 3 types) with every other stable std::io::ErrorKind (an interrupted operation may be tried again, then the run must be indistinguishable from the undisturbed one incl. flushed state; every other kind must be reported), every fault point again on destinations that already hold longer stale content, and every unordered pair of one-shot faults anywhere in the history (files, up to their declared length, equal the undisturbed run of the history without the failed writes); a .shp beyond 2 GiB (two user-defined records of 1 GiB on a discarding destination, a finalize, two small records) with each of the last 80 and first 8 operations of the .shp failing once; one history of 131073 writes (thorough also 300001, and PolylineM) with every seek and flush and the first and last 40 operations of each device failing once; chunking = uniform c in {1,2,3,4,5,7,8,9,15,16,17} (and 7..2^20 on shapes of 8193..70001 points) and, for every write call j, 'call j moves 1 byte' and 'call j moves len-1 bytes'; every case is non-trivial",
             bounds: json!({"max_history": tier.pick(4, 6), "max_history_kinds_pairs_stale": tier.pick(3, 4), "types": types.iter().map(|t| t.name()).collect::<Vec<_>>(), "uniform_chunks": UNIFORM}),
             exhaustive: true,
             assumptions: vec![
